@@ -66,6 +66,13 @@ class PathCtx:
         self.functions_entered = {}
         self.summaries_used = {}
         self.assumed = []
+        self._deferred = []
+        # a second, 'light' solver holding only the small quantifier-free conjuncts of the path condition:
+        # most branch conditions (signs, ranges, enum ordinals) are settled by those alone, without dragging
+        # the large nonlinear terms into every query
+        self.light = z3.Solver()
+        self.light.set('timeout', 150)
+        self._light_marks = []
 
     # -- symbols ---------------------------------------------------------------------------
     def fresh(self, base, sort):
@@ -94,6 +101,39 @@ class PathCtx:
             cond = z3.BoolVal(False)
         self.pc.append(cond)
         self.solver.add(cond)
+        try:
+            if not z3.is_quantifier(cond) and _size(cond, 150) <= 150:
+                self.light.add(cond)
+        except z3.Z3Exception:
+            pass
+
+    def axiom(self, fact):
+        """A universally valid fact (an instance of a library axiom): survives speculative
+        evaluation, whose own assumptions are discarded."""
+        if self.pure_depth:
+            self._deferred.append(fact)
+        self.assume(fact)
+
+    def light_decides(self, cond):
+        """True / False if the small facts alone settle cond, else None."""
+        try:
+            if _size(cond, 60) > 60:
+                return None
+            self.light.push()
+            self.light.add(z3.Not(cond))
+            r = self.light.check()
+            self.light.pop()
+            if r == z3.unsat:
+                return True
+            self.light.push()
+            self.light.add(cond)
+            r = self.light.check()
+            self.light.pop()
+            if r == z3.unsat:
+                return False
+        except z3.Z3Exception:
+            pass
+        return None
 
     def _check(self, *extra):
         t0 = time.time()
@@ -143,6 +183,16 @@ class PathCtx:
             return True
         if z3.is_false(cond):
             return False
+        quick = self.light_decides(cond)
+        if quick is not None and not (self.pos < len(self.trace)):
+            if not self.pure_depth:
+                # record as a forced decision so that replays of this path stay aligned
+                d = Decision(0 if quick else 1, 2, True)
+                d.alts = [d.choice]
+                self.trace.append(d)
+                self.pos += 1
+                self.assume(cond if quick else z3.Not(cond))
+            return quick
         if self.pure_depth:
             if self.entails(cond):
                 return True
@@ -163,6 +213,19 @@ class PathCtx:
         if isinstance(goal, bool):
             goal = z3.BoolVal(goal)
         status, model = 'unknown', None
+        # fast path: resolve if-then-else terms whose condition is settled by the simple facts of the
+        # path condition, then rewrite; a goal that rewrites to true needs no search at all
+        try:
+            g2 = z3.simplify(resolve_ites(goal, self.pc, light=self.light))
+            if z3.is_true(g2):
+                dt = time.time() - t0
+                self.solver_seconds += dt
+                res = ObligationResult(name, 'proved', None, goal, where, dt, 'z3-rewrite',
+                                       path=[d.choice for d in self.trace[: self.pos]], note=note)
+                self.results.append(res)
+                return res
+        except z3.Z3Exception:
+            pass
         self.solver.push()
         try:
             # first attempt: the path's incremental solver with a short budget; nonlinear queries
@@ -191,6 +254,89 @@ class PathCtx:
 
 class InfeasiblePath(Exception):
     pass
+
+
+def prove_from(ctx, name, goal, facts, note=None, timeout_ms=None):
+    """Check  /\\ facts => goal  in a fresh solver (facts are stated preconditions, axiom instances or
+    clauses already proved on this path -- never the whole path condition)."""
+    t0 = time.time()
+    s = z3.Solver()
+    s.set('timeout', timeout_ms or ctx.timeout_ms)
+    for f in facts:
+        s.add(f)
+    s.add(z3.Not(goal))
+    r = s.check()
+    status, model, backend = 'unknown', None, 'z3-oneshot'
+    if r == z3.unsat:
+        status = 'proved'
+    elif r == z3.sat:
+        status, model = 'refuted', s.model()
+    else:
+        status, model, backend = second_opinion(list(facts), goal, timeout_ms or ctx.timeout_ms)
+    dt = time.time() - t0
+    ctx.solver_seconds += dt
+    res = ObligationResult(name, status, model, goal, None, dt, backend,
+                           path=[d.choice for d in ctx.trace[: ctx.pos]], note=note)
+    ctx.results.append(res)
+    return res
+
+
+def _size(e, limit=400):
+    seen, stack, n = set(), [e], 0
+    while stack:
+        x = stack.pop()
+        if x.get_id() in seen:
+            continue
+        seen.add(x.get_id())
+        n += 1
+        if n > limit:
+            return n
+        stack.extend(x.children())
+    return n
+
+
+def resolve_ites(term, pc, per_cond_ms=300, light=None):
+    """Replace If(c, a, b) by a / b where the *small* conjuncts of the path condition settle c."""
+    conds = {}
+    seen, stack = set(), [term]
+    while stack:
+        x = stack.pop()
+        if x.get_id() in seen:
+            continue
+        seen.add(x.get_id())
+        if z3.is_app_of(x, z3.Z3_OP_ITE):
+            c = x.arg(0)
+            conds[c.get_id()] = c
+        stack.extend(x.children())
+    if not conds:
+        return term
+    if light is None:
+        light = z3.Solver()
+        light.set('timeout', per_cond_ms)
+        for p in pc:
+            if not z3.is_quantifier(p) and _size(p, 120) <= 120:
+                light.add(p)
+    subs = []
+    # innermost conditions first is not needed: substitution is simultaneous on settled conditions
+    for c in conds.values():
+        if _size(c, 200) > 200:
+            continue
+        light.push()
+        light.add(z3.Not(c))
+        r = light.check()
+        light.pop()
+        if r == z3.unsat:
+            subs.append((c, z3.BoolVal(True)))
+            continue
+        light.push()
+        light.add(c)
+        r = light.check()
+        light.pop()
+        if r == z3.unsat:
+            subs.append((c, z3.BoolVal(False)))
+    if not subs:
+        return term
+    return z3.substitute(term, *subs)
 
 
 def second_opinion(pc, goal, timeout_ms):
